@@ -45,7 +45,7 @@ def run(ctx):
                 'non-trivial = >= 2 hypotheses returned and LM changes the ranking or scale > 0')
     ctx.assumptions += ['floating-point log-domain arithmetic agrees with exact arithmetic within 1e-7 relative; rank decisions '
                         'with margin < 1e-6 are skipped (ties_skipped)']
-    n = 300 if ctx.quick() else 6000
+    n = 800 if ctx.quick() else 9000
     reqs, impl = [], []
     for it in range(n):
         rows = pb.gen_matrix(rng)
@@ -70,6 +70,21 @@ def run(ctx):
                    h0=h0, lm=dict(m=toy.m, table=[str(x) for x in toy.table], eos=[str(x) for x in toy.eos]))
         ctx.evaluations += 1
         dec = CTCPrefixLogRawNumpyDecoder(letters, k, **kw)
+        # history: half of the decoders have already decoded another line (other matrix, other start state)
+        warm = rng.random() < 0.5
+        inp['decoder_reused'] = warm
+        if warm:
+            ctx.count('decoder_reused')
+            for _ in range(rng.choice([1, 1, 2])):
+                rows_w = pb.gen_matrix(rng, C=C)
+                if pb.near_threshold(rows_w):
+                    continue
+                hw = rng.randrange(toy.m) if rng.random() < 0.7 else None
+                inp.setdefault('earlier_lines', []).append(dict(weights=rows_w, h0=hw))
+                try:
+                    dec(pb.to_logits(rows_w), model_eos=model_eos, return_h=True, init_h=None if hw is None else np.array([hw], dtype=np.int64))
+                except Exception:
+                    pass
         try:
             bag, h_ret = dec(L, model_eos=model_eos, return_h=True, init_h=None if h0 is None else np.array([h0], dtype=np.int64))
         except Exception as e:
